@@ -112,3 +112,15 @@ PROPS["C13"] = {
     "rule": "10 method URIs (8 known + 2 unknown) x RSA 1024/2048/3072/4096 and ECDSA P-256/384/521 keys x endpoints with/without query x relay states, redirect binding; "
             "POST AuthnRequest, POST/redirect logout messages and ArtifactResolve verified as enveloped signatures; method/key table",
 }
+
+PROPS["C14"] = {
+    "modules": ["SamlVerif.Props.C14"],
+    "trusted_base": ["modelled, not verified: html/template's context analysis (replaced by the decidable predicate templateOK over the template text extracted from the current source) "
+                     "and its escaper functions (re-implemented byte for byte; rendered output compared byte for byte with the real template execution)",
+                     "the WHATWG tokenizer is represented by the two states the templates use (double-quoted attribute value, data); the harness parses every real output with golang.org/x/net/html",
+                     "net/url.Parse beyond scheme scanning, fragment cut and control-byte rejection (one-directional relation: code accepts => model accepts the same value)"],
+    "assumptions": [],
+    "rule": "hostile strings (HTML/JS metacharacters, quotes, NUL, U+2028/9, template delimiters, tag/comment/CDATA look-alikes) and hostile URLs (javascript:, data:, vbscript:, case/blank/tab tricks, relative, malformed) "
+            "in every interpolated position of the SP request/logout forms, IdP response form, samlidp login form and middleware POST page; rendered bytes compared with the model's rendering of the extracted template; "
+            "metadata Location/ResponseLocation x known and unknown bindings x every endpoint-bearing element through xml.Unmarshal and samlsp.ParseMetadata",
+}
